@@ -6,9 +6,9 @@ from common import Check, seed, log
 import lincheck
 
 FAMS = ["border", "full", "two", "empty", "layer", "layerfull", "three"]
-# extra families per property: pair = interior root over two nearly empty borders (both emptied concurrently, root collapse);
+# extra families per property: chain = three consecutive borders, the middle one is emptied while its full predecessor splits; pair = interior root over two nearly empty borders (both emptied concurrently, root collapse);
 # links = layer-0 border that holds only next-layer links (inserts of short keys land in a border that gave the scan no value)
-EXTRA = {"C01": ["pair"], "C08c": ["pair"], "C09": ["pair"], "C04": ["links"], "C06": ["links"], "C10": ["links", "pair"]}
+EXTRA = {"C01": ["pair"], "C08c": ["pair", "chain"], "C09": ["pair", "chain"], "C04": ["links"], "C06": ["links"], "C10": ["links", "pair"]}
 
 
 def plan(prop, tier):
@@ -22,6 +22,10 @@ def plan(prop, tier):
             J.append((fam, "pre1", ["scenarios=%d" % ((8 if q else 40) // (2 if big else 1)), "threads=2", "opsper=%d" % (1 if big else 2)]))
             if not big:
                 J.append((fam, "pct", ["scenarios=%d" % (12 if q else 60), "runs=%d" % (10 if q else 30), "threads=3", "opsper=2"]))
+        if prop == "C09":   # scans and cursors must terminate too, whatever splits / layer-root replacements happen under them
+            for fam in ["layerfull", "layer", "full", "two"]:
+                J.append((fam, "random", ["scenarios=%d" % (15 if q else 60), "runs=%d" % (10 if q else 30), "threads=2", "opsper=2", "scans=25", "iscans=35"]))
+                J.append((fam, "pre1", ["scenarios=%d" % (6 if q else 30), "threads=2", "opsper=2", "scans=20", "iscans=40"]))
         if not q:   # free-running real threads on the same scenarios (hardware interleavings)
             for fam in FAMS[:6] + ["pair"]:
                 J.append((fam, "free", ["scenarios=300", "runs=40", "threads=3", "opsper=2"]))
@@ -35,7 +39,7 @@ def plan(prop, tier):
                 J.append((fam, "pct", ["scenarios=%d" % (12 if q else 60), "runs=%d" % (10 if q else 30), "threads=3", "opsper=2"] + sc))
         # directed scenarios: reader = scan that ends inside a node (limited / bounded / right-to-left), writer = remove + insert that reuses
         # the freed slot, remove + re-insert, insert + remove; every single preemption
-        for fam in ["border", "full", "two", "layer"]:
+        for fam in ["border", "full", "two", "layer", "layerfull"]:
             J.append((fam, "pre1", ["scenarios=%d" % (10 if q else 40), "threads=2", "opsper=2", "scans=100", "directed=1"]))
             J.append((fam, "pct", ["scenarios=%d" % (10 if q else 40), "runs=%d" % (15 if q else 40), "threads=2", "opsper=2", "scans=100", "directed=1"]))
     elif prop == "C13c":
